@@ -37,7 +37,8 @@ Env == <<
   [n |-> "InX", kind |-> "type", ty |-> OO(<<Prop("x", Ref("X"), FALSE)>>)],
   [n |-> "W",   kind |-> "type", params |-> <<"X">>, ty |-> OO(<<Prop("i", Ref("InX"), FALSE), Prop("v", Param("X"), FALSE)>>)],
   \* a declared name that looks like the name generated for an instantiation (G<string>)
-  [n |-> "G_string", kind |-> "type", ty |-> OO(<<Prop("v", TNumber, FALSE)>>)]
+  [n |-> "G_string", kind |-> "type", ty |-> OO(<<Prop("v", TNumber, FALSE)>>)],
+  [n |-> "Row", kind |-> "type", ty |-> Tup(<<TString, TNumber>>, <<TBoolean>>)]
 >>
 RO == Ref("O")
 RP == Ref("P")
@@ -64,6 +65,10 @@ ULeaves == <<
   Util("Partial", <<App("G", <<TNumber>>)>>), Util("Required", <<Util("Partial", <<RO>>)>>), Util("Partial", <<Ref("R1")>>),
   Util("Pick", <<Ref("R1"), LS("next")>>), Util("Partial", <<Ref("I2")>>), Util("Required", <<Ref("I2")>>),
   Util("Omit", <<Inter(<<RO, RP>>), LS("a")>>), Util("Partial", <<Uni(<<RO, RP>>)>>),
+  \* indexed access into tuples with a rest element
+  Index(Ref("Row"), LN("0")), Index(Ref("Row"), LN("1")), Index(Ref("Row"), LN("2")), Index(Ref("Row"), LN("5")),
+  Index(Ref("Row"), Uni(<<LN("1"), LN("2")>>)), Index(Ref("Row"), TNumber), OO(<<Prop("flag", Index(Ref("Row"), LN("2")), FALSE)>>),
+  Index(Tup(<<TString, TNumber>>, <<>>), LN("1")),
   App("W", <<TString>>), OO(<<Prop("w", App("W", <<TString>>), FALSE), Prop("i", Ref("InX"), FALSE)>>),
   OO(<<Prop("i", Ref("InX"), FALSE), Prop("w", App("W", <<TBoolean>>), FALSE)>>),
   OO(<<Prop("g", App("G", <<TString>>), FALSE), Prop("u", Ref("G_string"), FALSE)>>)
